@@ -5143,7 +5143,10 @@ XPath::NodeTester::testNode(
             const XalanNode&        context,
             XalanNode::NodeType     nodeType) const
 {
-    if (nodeType != XalanNode::TEXT_NODE ||
+    // A CDATA section of a wrapped DOM is text in the XPath data model,
+    // so it is subject to whitespace stripping as well.
+    if ((nodeType != XalanNode::TEXT_NODE &&
+         nodeType != XalanNode::CDATA_SECTION_NODE) ||
         shouldStripSourceNode(static_cast<const XalanText&>(context)) == false)
     {
         return eMatchScoreNodeTest;
